@@ -17,22 +17,27 @@ LEMMAS = {
 TIMEOUT = {"quick": 150, "thorough": 600}
 
 META = dict(
-    functions=["pydrobert.torch._parsing." + f for f in ("write_trn", "read_trn", "read_trn_iter", "_trn_line_to_transcript", "write_ctm", "read_ctm", "write_textgrid")],
+    functions=["pydrobert.torch._parsing." + f for f in ("write_trn", "read_trn", "read_trn_iter", "_trn_line_to_transcript", "write_ctm", "read_ctm", "write_textgrid", "transcript_to_token", "token_to_transcript")],
     files=["src/pydrobert/torch/_parsing.py", "src/pydrobert/torch/_textgrid.py"],
-    technique="CrossHair 0.0.110 (symbolic execution of the real Python parsing code with z3), one process per lemma, fixed per-condition timeout",
+    technique="CrossHair 0.0.110 (symbolic execution of the real Python parsing code with z3), one process per lemma, fixed per-condition timeout; seconds<->frames: proxy-number symbolic execution with z3 reals (checks/c11_frames.py)",
     explanation=(
         "Each lemma is a function with a PEP316 contract in checks/c11_lemmas.py that calls the real writers and readers on symbolic strings (utterance ids "
         "and tokens over small delimiter-free alphabets) through a pure-Python in-memory file; CrossHair searches its postcondition for a counterexample.  "
         "Lemmas: trn write->read round trip for 0..2 tokens and for several utterances including an empty transcript; writing/reading through a path "
         "(module-level open shadowed by the same in-memory files) produces byte-identical output and the same transcripts for trn, ctm (with and without "
         "a waveform/channel map) and TextGrid under every precision 0..6 and tier type.  Only 'Confirmed over all paths' counts; a reported counterexample "
-        "is re-run concretely against the real code before it is reported."),
+        "is re-run concretely against the real code before it is reported.  Seconds<->frames (checks/c11_frames.py): transcript_to_token runs on symbolic "
+        "real-valued start/end times (SymFloat proxies; its torch.empty buffer is replaced by a cell grid), the resulting frame numbers are fed as a symbolic tensor to "
+        "token_to_transcript (each .item() forks over the feasible frames); asserted for every real 0 <= start <= end within the horizon: whole-number frames, "
+        "0 <= start frame <= end frame, same token ids, and both times recovered to within one frame shift."),
     bounds=dict(quick="tokens of 1-2 characters over {a,b}, utterance ids of 1-2 characters, 0..2 tokens per transcript, precision 0..6, three tier-type settings, per-condition timeout 150 s",
-                thorough="as quick plus three tokens; per-condition timeout 600 s"),
+                thorough="as quick plus three tokens; per-condition timeout 600 s",
+                frames="quick: frame shifts 10, 12.5 and 1/8 ms, times in [0, 3 shifts], one token (two for 10 ms); thorough: also 1/16, 1, 20 ms and 5 shifts"),
     assumptions=["file objects replaced by a pure-Python in-memory file (io.StringIO is C code and would realise symbolic strings)",
-                 "ctm/TextGrid times are concrete values on a dyadic grid (CrossHair models floats as reals, so symbolic times are outside)"],
+                 "ctm/TextGrid times are concrete values on a dyadic grid (CrossHair models floats as reals, so symbolic times are outside)",
+                 "seconds<->frames: Python float arithmetic modelled as real arithmetic (float outputs read back as the nearest rational with denominator <= 1e9); replays on the real code allow a 1e-9 slack"],
     outside=["trn alternates (nested {a / b}) and the ctm value round trip: CrossHair returns 'Not confirmed' within 150 s even for one symbolic token, or a counterexample that does not reproduce on the real code (symbolic float parsing); not claimed",
-             "TextGrid reading (regex-driven parser), float print precision, seconds<->frames conversion (transcript_to_token/token_to_transcript), multi-process reading (worker schedules)"],
+             "TextGrid reading (regex-driven parser), float print precision, token2id/unk mapping in transcript_to_token, multi-process reading (worker schedules)"],
 )
 
 
@@ -73,7 +78,8 @@ def run_lemma(name, timeout):
 
 
 def tasks(tier):
-    return []
+    from checks import c11_frames
+    return c11_frames.tasks(tier)
 
 
 def extra(tier, seed):
